@@ -169,7 +169,7 @@ impl Oplog {
                     let mut entries_buff =
                         get_slices_checked(&existing, OplogSlot::Entries as usize)?.1;
                     let mut entries: Vec<Entry> = Vec::new();
-                    let mut partials: Vec<bool> = Vec::new();
+                    let mut partials: Vec<(bool, u64)> = Vec::new();
                     // Entries are written with the header bit that was current at the time. An
                     // entry carrying the other bit is a leftover from before the latest header
                     // write (a crash hit between that write and the truncation): it is already
@@ -182,16 +182,19 @@ impl Oplog {
                         let res = Entry::decode(entry_outcome.state)?;
                         entries.push(res.0);
                         // New entries must be appended behind the ones found here
+                        let entry_byte_length = (entries_buff.len() - res.1.len()) as u64;
                         outcome.oplog.entries_length += 1;
-                        outcome.oplog.entries_byte_length +=
-                            (entries_buff.len() - res.1.len()) as u64;
+                        outcome.oplog.entries_byte_length += entry_byte_length;
                         entries_buff = res.1;
-                        partials.push(entry_outcome.partial_bit);
+                        partials.push((entry_outcome.partial_bit, entry_byte_length));
                     }
 
                     // Remove all trailing partial entries
-                    while !partials.is_empty() && partials[partials.len() - 1] {
+                    while let Some((true, entry_byte_length)) = partials.last().copied() {
+                        partials.pop();
                         entries.pop();
+                        outcome.oplog.entries_length -= 1;
+                        outcome.oplog.entries_byte_length -= entry_byte_length;
                     }
                     outcome.entries = Some(entries.into_boxed_slice());
 
